@@ -147,13 +147,13 @@ theorem xrefStreamContent_length (secs : List (Nat × List (Nat × Nat))) :
   | cons s rest ih =>
     obtain ⟨st, es⟩ := s
     have hes : ∀ es : List (Nat × Nat),
-        ((es.map fun (p : Nat × Nat) => [1] ++ beBytes 4 p.1 ++ beBytes 2 p.2).flatten).length = 7 * es.length := by
+        ((es.map fun (p : Nat × Nat) => [1] ++ beBytesW 4 p.1 ++ beBytesW 2 p.2).flatten).length = 7 * es.length := by
       intro es
       induction es with
       | nil => simp
       | cons e es ihe =>
         simp only [List.map_cons, List.flatten_cons, List.length_append, ihe]
-        simp [beBytes]; omega
+        simp [beBytesW]; omega
     simp only [xrefStreamContent] at ih ⊢
     simp only [List.map_cons, List.flatten_cons, List.length_append, List.sum_cons, ih]
     have := hes es
